@@ -294,6 +294,8 @@ def oracle_c17(out: Dict[str, Any], workers: int, max_fails: Optional[int] = Non
     tr = out["trace"]
     if out["crash"]:
         v.append(Violation("manager-crashed", out["crash"]))
+    if out.get("returned") and out.get("ret") is None and not any(e[1] == "signal" and e[2] in ("INT", "TERM") for e in tr):
+        v.append(Violation("stopped-supervising", "start() returned although nobody asked the manager to shut down: dead workers are no longer replaced"))
     if max_fails is not None and max_fails < 1 and out.get("returned") and out.get("ret") == -1:
         # "unless it has exhausted its failure budget": there is no budget to exhaust when max_fails < 1
         v.append(Violation("gave-up-without-budget", f"start() returned -1 (stopped supervising) although max_fails={max_fails} means no failure budget"))
@@ -375,6 +377,8 @@ def oracle_c18(out: Dict[str, Any], workers: int, max_fails: int, history: List[
     if out["returned"]:
         if ret not in (-1, None):
             v.append(Violation("bad-return-value", f"start() returned {ret!r}"))
+        if ret is None and not any(e[1] == "signal" and e[2] in ("INT", "TERM") for e in tr):
+            v.append(Violation("returned-without-shutdown-request", "start() returned the success status although no SIGINT/SIGTERM was ever delivered"))
         if ret == -1:
             if max_fails < 1:
                 v.append(Violation("failure-exit-with-budget-disabled", f"returned -1 with max_fails={max_fails}"))
